@@ -145,12 +145,17 @@ fn main() {
     let mut want_info = false;
     let mut file: Option<String> = None;
     let mut guard_mode: Option<(u64, bool, bool)> = None;
+    let mut threads: usize = 0;
     for a in std::env::args().skip(1) {
         if let Some(spec) = a.strip_prefix("--guard=") {
             // --guard=<seed>,<quick|thorough>[,verbose]
             let parts: Vec<&str> = spec.split(',').collect();
             let seed = parts.first().and_then(|s| s.parse().ok()).unwrap_or(1);
             guard_mode = Some((seed, parts.get(1) == Some(&"thorough"), parts.get(2) == Some(&"verbose")));
+            continue;
+        }
+        if let Some(n) = a.strip_prefix("--threads=") {
+            threads = n.parse().unwrap_or(16);
             continue;
         }
         if a == "--alloc" {
@@ -187,6 +192,67 @@ fn main() {
         return;
     }
     std::panic::set_hook(Box::new(|_| {}));
+    if threads > 0 {
+        // C15: the cases of the op file are executed concurrently on `threads` OS threads, each case on
+        // its own handle table; the output is printed in file order and must equal the sequential run
+        let text = std::fs::read(file.expect("--threads needs an ops file")).expect("read ops");
+        let mut cases: Vec<Vec<Vec<u8>>> = Vec::new();
+        for line in text.split(|&c| c == b'\n') {
+            if line.starts_with(b"# case") || cases.is_empty() {
+                cases.push(Vec::new());
+            }
+            if !line.is_empty() {
+                cases.last_mut().unwrap().push(line.to_vec());
+            }
+        }
+        let ncases = cases.len();
+        let results: Vec<std::sync::Mutex<Vec<u8>>> = (0..ncases).map(|_| std::sync::Mutex::new(Vec::new())).collect();
+        let next = std::sync::atomic::AtomicUsize::new(0);
+        std::thread::scope(|sc| {
+            for _ in 0..threads {
+                sc.spawn(|| {
+                    let mut scratch = vec![0u8; 1 << 20];
+                    loop {
+                        let i = next.fetch_add(1, Ordering::Relaxed);
+                        if i >= ncases {
+                            break;
+                        }
+                        let mut m = Machine::new(cpu);
+                        let mut outv: Vec<u8> = Vec::new();
+                        for line in &cases[i] {
+                            if line.first() == Some(&b'#') {
+                                outv.extend_from_slice(line);
+                                outv.push(b'\n');
+                                continue;
+                            }
+                            let r = std::panic::catch_unwind(std::panic::AssertUnwindSafe(|| {
+                                let mut local: Vec<u8> = Vec::new();
+                                {
+                                    let mut emit = |b: &[u8]| local.extend_from_slice(b);
+                                    let mut out = Out { emit: &mut emit };
+                                    m.exec(line, &mut scratch[..], &mut out);
+                                }
+                                local
+                            }));
+                            match r {
+                                Ok(l) => outv.extend_from_slice(&l),
+                                Err(_) => outv.extend_from_slice(b"panic"),
+                            }
+                            outv.push(b'\n');
+                            std::thread::yield_now();
+                        }
+                        *results[i].lock().unwrap() = outv;
+                    }
+                });
+            }
+        });
+        let stdout = std::io::stdout();
+        let mut w = stdout.lock();
+        for r in &results {
+            w.write_all(&r.lock().unwrap()).unwrap();
+        }
+        return;
+    }
     let input: Box<dyn BufRead> = match file {
         Some(f) => Box::new(std::io::BufReader::new(std::fs::File::open(f).expect("open ops"))),
         None => Box::new(std::io::BufReader::new(std::io::stdin())),
